@@ -880,8 +880,10 @@ def run(res, only=None):
                         'scalar vs array agreement is up to that distance (scipy iterates all elements of an array until the slowest converged); ndarray vs Series is bit for bit',
                         'floating-point rounding of numpy is outside the theorems: value certificates compare at 1e-8 relative']
     res.cov['rule'] = ('materials from the FKM estimates (Steel / SteelCast / Al_wrought, R_m 200..1400 MPa; a quarter with perturbed K\', n\'), K_p in {1, 1.001, 1.5, 3.5, 10} or uniform(1,10) '
-                       '(Seeger-Beste only K_p > 1), ladders of loads 1e-3..4 R_m with gaps >= 2 %, both signs, ranges up to twice that, tol = rtol in 1e-4..1e-10, '
-                       'containers float / np.float64 / 0-d / 1-element ndarray and Series / ndarray / Series; non-trivial = distinct (law, branch, material, K_p, load) whose load has a '
+                       '(20 % of the samples: K_p - 1 log-uniform in 1e-3..0.2; Seeger-Beste only K_p > 1), ladders of loads 1e-3..4 R_m with gaps >= 2 %, both signs, ranges up to twice that, tol = rtol in 1e-4..1e-10, '
+                       'containers float / np.float64 / 0-d / 1-element ndarray and Series / ndarray / Series / Series with permuted index / integer-valued loads as int, np.int64, int64 ndarray, '
+                       'int64 Series, list of int, list and tuple of float; a load of exactly 0 alone and inside arrays; per law and branch geometric ladders of 24/48/80 amplitudes K\'*10^(-2..0.3) '
+                       '(tol 1e-6..1e-5) through the elastic-plastic transition; non-trivial = distinct (law, branch, material, K_p, load) whose load has a '
                        'plastic strain share > 1e-6 (the law differs from sigma = L), counted over returned values that were checked')
     proofs_ok = common.standard_proof_stage(res, 'C06', extra_targets=['theories/Common/Cert.vo'], gen_fn=lambda: gen_specs.generate(GEN))
     k, m, per_kind = (36, 5, 8) if quick else (400, 8, 45)
